@@ -230,7 +230,7 @@ def rule_peer_shaped_sinks(S, res):
                 n_sinks += 1
                 res.bad("R1.i" if tail in INDEX_TAILS else "R1.iii", "%s|%s|decrypt" % (b.owner.rsplit("::", 1)[-1], tail),
                         "`%s` on the decrypted row plaintext (shape chosen by the garbler)" % tail, where(b, e.block))
-    res.floor("sinks_on_message_components", n_sinks, 40)
+    res.floor("sinks_on_message_components", n_sinks, 20)
     res.count("guarded_peer_shaped_sinks", n_guarded)
     if not [v for v in res.violations if v["rule"] in ("R1.i", "R1.iii")]:
         res.ok("R1.i", "all-receives", "", "%d index/slice/unwrap sinks on message components: validated by the receive primitive or behind a fail-closed length test (%d)" % (n_sinks, n_guarded))
@@ -546,7 +546,7 @@ def rule_err_not_dropped(S, res):
                 bad += 1
                 w = ds[0]
                 res.bad("R-ERR", "%s|unused" % fn, "a Result of the channel/protocol layer is never inspected (`let _ = ..`)", where(b, w[0], w[1]))
-    res.floor("result_values_tracked", n, 60)
+    res.floor("result_values_tracked", n, 30)
     if not bad:
         res.ok("R-ERR", "engine", "", "%d Result values of the channel / preprocessing / protocol error types: all propagated with `?`, matched, or returned" % n)
 
@@ -590,6 +590,6 @@ def rule_wait_only_on_channel(S, res):
                     if ys:
                         bad += 1
                         res.bad("R1.wait", "%s|guard-across-await" % b.owner.rsplit("::", 1)[-1], "a std::sync::MutexGuard is alive across an .await (other branches of the join block on it)", where(b, ys[0]))
-    res.floor("awaits_in_engine", n, 30)
+    res.floor("awaits_in_engine", n, 15)
     if not bad:
         res.ok("R1.wait", "engine", "", "%d awaits, all on engine futures / joins; no std MutexGuard alive across a yield" % n)
